@@ -531,7 +531,7 @@ def r6_parent_seeds(ctx: Context) -> None:
 
 # ---------------------------------------------------------------------------------------------- R7
 INERT_CALLS = {"print", "numpy.round", "numpy.min", "numpy.max", "numpy.average", "numpy.mean", "numpy.median", "numpy.std", "textwrap.dedent", "round", "len", "str", "format", "type", "min", "max",
-               "float", "int", "repr", "sum", "abs", "sorted"}
+               "float", "int", "repr", "sum", "abs", "sorted", "time.time", "time.perf_counter", "time.monotonic", "time.process_time"}     # (a clock read has no effect; what it feeds is followed below)
 # methods that only build text / fill a local list when the receiver is a string literal, an f-string or a (non-parameter) local
 INERT_METHODS = {"join", "format", "append", "extend", "ljust", "rjust", "center", "strip", "upper", "lower", "title", "splitlines", "split", "replace", "item", "tolist"}
 
